@@ -165,7 +165,7 @@ reg("C12",
     H("c12_q8_split", "c12::q8::split", unwind=34, timeout=300, funcs=["Q8E0::into_two_posits", "Q8E0::into_three_posits"], space_bits=32, bound="every non-NaR state whose residuals are not the NaR pattern"),
     H("c12_q16_roundtrip", "c12::q16::roundtrip", unwind=130, funcs=["From<P16E1> for Q16E1", "Q16E1::from_posit", "Q16E1::to_posit", "From<Q16E1> for P16E1"], space_bits=16, bound="every P16E1"),
     H("c12_q16_state_ops", "c12::q16::state_ops", unwind=130, funcs=["Q16E1::neg", "Q16E1::clear", "Q16E1::from_bits", "Q16E1::to_bits"], space_bits=128, bound="every 128-bit state"),
-    H("c12_q16_split", "c12::q16::split", unwind=130, timeout=900, funcs=["Q16E1::into_two_posits", "Q16E1::into_three_posits"], space_bits=128, bound="every non-NaR state whose residuals are not the NaR pattern"),
+    H("c12_q16_split", "c12::q16::split", unwind=130, timeout=2400, tier="thorough", funcs=["Q16E1::into_two_posits", "Q16E1::into_three_posits"], space_bits=128, bound="every non-NaR state whose residuals are not the NaR pattern"),
     H("c12_q32_roundtrip", "c12::q32::roundtrip", unwind=66, timeout=3600, mem_gb=10, tier="thorough", funcs=["From<P32E2> for Q32E2", "Q32E2::from_posit", "Q32E2::to_posit", "From<Q32E2> for P32E2"], space_bits=32, bound="every P32E2"),
     H("c12_q32_state_ops", "c12::q32::state_ops", unwind=66, timeout=300, funcs=["Q32E2::neg", "Q32E2::clear", "Q32E2::from_bits", "Q32E2::to_bits"], space_bits=512, bound="every 512-bit state"),
     H("c12_q32_split2", "c12::q32::split2", unwind=66, timeout=2400, mem_gb=14, tier="thorough", funcs=["Q32E2::into_two_posits"], space_bits=512, bound="every non-NaR state whose residual is not the NaR pattern"),
@@ -238,7 +238,7 @@ reg("C17",
     H("c17_quire_q16", "c17::quire::q16", unwind=130, timeout=900, funcs=["Quire<P16E1> for Q16E1: all trait methods vs inherent"], space_bits=160, bound="every state and operand pair"),
     )
 for part, nm in enumerate(["predicates", "add_product", "sub_product", "neg_clear"]):
-    reg("C17", H("c17_quire_q32_" + nm, "c17::quire::q32", gen=str(part), unwind=66, timeout=1800, mem_gb=10, tier="quick" if part in (0, 3) else "thorough",
+    reg("C17", H("c17_quire_q32_" + nm, "c17::quire::q32", gen=str(part), unwind=66, timeout=1800, mem_gb=10, tier="quick" if part == 3 else "thorough",
                  funcs=["Quire<P32E2> for Q32E2: " + nm], space_bits=576, bound="every 512-bit state and operand pair"))
 # the C01 op spellings are also C17 obligations
 for t in ("p8", "p16"):
@@ -251,14 +251,14 @@ for t, T, n, uw in TYPES[:2]:
     uwq = {"p8": 34, "p16": 130}[t]
     for d in list(range(1, 5)) + ["3a", "4a"]:
         ncoef = (int(str(d)[0]) + 1)
-        reg("C18", H("c18_%s_poly%s_meaning" % (t, d), "c18::%s::poly%s_meaning" % (t, d), unwind=uwq, timeout=1200 if t == "p8" else 3600,
-                     tier="quick" if t == "p8" or d in (1, 2) else "thorough", funcs=["%s::poly%s" % (T, d), "%s::mul" % T, "quire += / to_posit"], space_bits=n * (ncoef + 1),
+        reg("C18", H("c18_%s_poly%s_meaning" % (t, d), "c18::%s::poly%s_meaning" % (t, d), unwind=uwq, timeout=2400 if t == "p8" else 5400,
+                     tier="quick" if t == "p8" and d in (1, 2, 3) else "thorough", funcs=["%s::poly%s" % (T, d), "%s::mul" % T, "quire += / to_posit"], space_bits=n * (ncoef + 1),
                      bound="every x and every coefficient array; exact integer reference (sum of c[i]*pow_i in %d-fraction-bit fixed point, powers = reference-rounded products, one rounding%s)" % (12 if t == "p8" else 56, "; two stages as documented" if "a" in str(d) else "")))
     for d in list(range(1, 19)) + ["3a", "4a"]:
         deg = int(str(d)[0]) if "a" in str(d) else d
         if t == "p16" and deg > 8:
             continue
-        quick = (t == "p8" and deg <= 8) or (t == "p16" and deg <= 2)
+        quick = (t == "p8" and deg <= 6) or (t == "p16" and deg <= 1)
         reg("C18", H("c18_%s_poly%s_staging" % (t, d), "c18::%s::poly%s_staging" % (t, d), unwind=uwq, timeout=2400 if deg <= 8 else 5400, mem_gb=4 if deg <= 8 else 8,
                      tier="quick" if quick else "thorough", funcs=["%s::poly%s" % (T, d)], space_bits=n * (deg + 2),
                      bound="every x and every coefficient array; result == the documented multi-stage construction written with the crate's public *, quire += and to_posit"))
@@ -374,7 +374,7 @@ for h in PLAN["C11"] if "C11" in PLAN else []:
 C11_FULL_QUICK = {"exp", "ln", "sin_pi", "atan_pi"}
 for fi, f in enumerate(["exp", "exp2", "ln", "log2", "sin_pi", "cos_pi", "tan_pi", "asin_pi", "acos_pi", "atan_pi"]):
     for k in range(16):
-        reg("C11", H("c11_p16_%s_s%x" % (f, k), "c11::%s" % f, gen=str(k), unwind=40, timeout=900, tier="quick" if f in C11_FULL_QUICK else "thorough", rot=None if f in C11_FULL_QUICK else (k + fi, 4),
+        reg("C11", H("c11_p16_%s_s%x" % (f, k), "c11::%s" % f, gen=str(k), unwind=40, timeout=900, tier="thorough", rot=(k + fi, 4),
                      funcs=["P16E1::%s" % f], space_bits=12, slice_of="P16E1::%s over all 65536 inputs" % f,
                      bound="every P16E1 input whose top 4 bits are %#x, against the correctly rounded table (oracle/gen_tables.py)" % k))
 reg("C11",
